@@ -15,9 +15,15 @@ from . import mir
 _LOC = re.compile(r'\b_(\d+)\b')
 
 
+_RET = [None]     # while copying a callee: the caller's destination local that stands for the callee's `_0`
+
+
 def _ren_locals(text, off):
     if text is None:
         return None
+    ret = _RET[0]
+    if ret is not None and off:
+        return _LOC.sub(lambda m: ret if m.group(1) == '0' else '_%d' % (int(m.group(1)) + off), text)
     return _LOC.sub(lambda m: '_%d' % (int(m.group(1)) + off), text)
 
 
@@ -66,7 +72,7 @@ def clone_body(body):
     return nb
 
 
-def inline(prog, body, max_depth=4, max_blocks=1500, opaque=(), only=None, log=None):
+def inline(prog, body, max_depth=4, max_blocks=1500, opaque=(), only=None, log=None, carry_debug=False):
     """Returns a new Body with crate-local calls inlined.  `opaque`: callee keys never inlined.
     `only`: optional predicate on callee key."""
     root = clone_body(body)
@@ -108,12 +114,17 @@ def inline(prog, body, max_depth=4, max_blocks=1500, opaque=(), only=None, log=N
             return x + boff if x in gblocks else -1
         ret_target = t.targets[0]
         dest = t.dest
+        # a plain destination local stands for the callee's return place: `_0' = X` becomes `dest = X` (no merged copy, so
+        # that every return of the helper stays a definition of its own — also when the call was a tail call into `_0`)
+        direct = bool(re.fullmatch(r'_\d+', dest.strip())) and not any(re.search(r'(?<![\d_])%s(?!\d)' % re.escape(dest.strip()), a) for a in (t.args or []))
+        _RET[0] = dest.strip() if direct else None
         for gb, gk in gblocks.items():
             nbk = mir.Block(gb + boff, False)
             nbk.stmts = [_copy_stmt(s, off) for s in gk.stmts]
             if gk.term.kind == 'return':
-                st = mir.Stmt('assign', dest, 'move _%d' % off, '%s = move _%d' % (dest, off), gk.term.span)
-                nbk.stmts.append(st)
+                if not direct:
+                    st = mir.Stmt('assign', dest, 'move _%d' % off, '%s = move _%d' % (dest, off), gk.term.span)
+                    nbk.stmts.append(st)
                 nt = mir.Term('goto', 'goto -> bb%d' % ret_target, gk.term.span)
                 nt.targets = [ret_target]
                 nbk.term = nt
@@ -126,6 +137,7 @@ def inline(prog, body, max_depth=4, max_blocks=1500, opaque=(), only=None, log=N
             depth_of[nbk.id] = depth_of[bid] + 1
             stack_of[nbk.id] = stack_of[bid] + (g.name,)
             work.append(nbk.id)
+        _RET[0] = None
         for loc, ty in g.locals.items():
             root.locals[int(loc) + off if not isinstance(loc, str) else str(int(loc) + off)] = ty
         # parameter passing
@@ -137,5 +149,11 @@ def inline(prog, body, max_depth=4, max_blocks=1500, opaque=(), only=None, log=N
         nt.targets = [boff + 0]
         blk.term = nt
         inlined.append(g.name)
+        if carry_debug:
+            # the callee's source names stay attached to its (renumbered) locals
+            for nm, pl in g.debug_all:
+                pl2 = _ren_locals(pl, off)
+                root.debug_all.append((nm, pl2))
+                root.debug.setdefault(nm, pl2)
     root._inlined = inlined
     return root
